@@ -41,6 +41,18 @@ class Style:
     def charref(self):
         return self.rng is not None and self.rng.random() < 0.15
 
+    def comment(self):
+        """now and then a comment between elements, with tag-like text inside (ignored by every XML parser)"""
+        if self.rng is not None and self.rng.random() < 0.12:
+            return self.rng.choice(['<!-- previous release: <Lexicon id="old" version="0"> -->\n',
+                                    '<!-- <Extends id="nobase" version="0"/> -->\n',
+                                    '<!-- plain comment -->\n',
+                                    "<!--\n <LexiconExtension id='c' version='1' label='in a comment'>\n-->\n"])
+        return ''
+
+    def cdata(self):
+        return self.rng is not None and self.rng.random() < 0.06
+
 
 def esc_attr(s, q, st):
     out = []
@@ -63,6 +75,8 @@ def esc_attr(s, q, st):
 
 
 def esc_text(s, st):
+    if s and st.cdata() and ']]>' not in s and '\r' not in s:
+        return '<![CDATA[%s]]>' % s
     out = []
     for c in s:
         if c == '&':
@@ -118,6 +132,7 @@ def to_xml(resource, version=None, style=None, indent=True):
     for lex in resource['lexicons']:
         ext = lex.get('extends')
         tag = 'LexiconExtension' if ext else 'Lexicon'
+        w(st.comment())
         w('<%s%s>\n' % (tag, attrs(
             [('id', lex['id']), ('label', lex['label']), ('language', lex['language']),
              ('email', lex['email']), ('license', lex['license']), ('version', lex['version']),
@@ -130,8 +145,10 @@ def to_xml(resource, version=None, style=None, indent=True):
             w('<Requires%s/>\n' % attrs([('id', req['id']), ('version', req['version']),
                                          ('url', req.get('url'))], st))
         for e in lex.get('entries', []):
+            w(st.comment())
             _entry(e, w, st, v)
         for ss in lex.get('synsets', []):
+            w(st.comment())
             _synset(ss, w, st, v)
         for sb in lex.get('frames', []):
             _frame(sb, w, st, lexlevel=True)
